@@ -20,7 +20,7 @@ NA = {
 TECH = {
     "C02": "whole-function folding of solve_major_model and the lifted solver wrapper class against a recording MILP-library stand-in; with an unbounded gap the routine's own report lists every combination the model admits, compared with an independent enumeration of the statement's admissible combinations and their fit errors; gap reports; _filter_alleles / estimate_major folded whole",
     "C03": "whole-function folding of solve_cn_model and the lifted solver wrapper class against a recording MILP-library stand-in; the extracted model is enumerated exhaustively (own simplex for the continuous part) and compared pointwise with an independent reference of the documented model; report checked clause by clause; routes by folding estimate_cn, _parse_user_solution, the database loader and genotype()",
-    "C04": "whole-function folding of solve_minor_model and the lifted solver wrapper against a recording MILP-library stand-in; every assignment the built model admits is obtained through the routine's own read-out (the wrapper instance is given an exhaustive `solutions`), checked against the statement's clauses and compared with an independent enumeration (admitted set, objective incl. read-group disagreement); reports for max_solutions 1 and 3; estimate_minor pooling folded whole",
+    "C04": "whole-function folding of solve_minor_model and the lifted solver wrapper against a recording MILP-library stand-in; every assignment the built model admits is obtained through the routine's own read-out (the wrapper instance is given an exhaustive `solutions`), checked against the statement's clauses and compared with an independent enumeration (admitted set, objective incl. read-group disagreement); reports for max_solutions 1 and 3; estimate_minor folded whole (pooling of candidates and considered variants; the per-structure filter applied at once keeps every considered variant)",
     "C05": "the solver wrapper class (abssum, prod, solutions, CBC.*) lifted and run against a recording library on seeded random small models of the shape aldy builds: yields vs exhaustive evaluation (optimum, feasibility, gap, no repetition, order, superset rule), helper exactness; plus truth-table folding of the gadget constraints, typestate of the enumerator, CBC status/read-back table, name escaping",
     "C06": "per-op tables of the CIGAR walkers derived by folding the parser on one tiny read per op vs the SAM consumes-reference/query table; _load_sam folded whole on read stubs (eligibility, index independence, argument order); strict half-open region predicate on an interval grid; quality binning calibrated through the fold; out-of-gene folding; accessor table of the lifted Coverage class; depth conservation end to end (several reads through the lifted parser, coverage construction, Coverage constructor and accessors on a partly mapped gene vs an independent CIGAR interpreter)",
     "C07": "formula of the lifted normalisation routine folded on sample depth tables (monomial, k-fold invariance, self-profile = 2.0 through the profile writer folded whole on synthesised reads, incl. a sparse sample with the neutral region on another chromosome); sibling depth-counter agreement per CIGAR op and per SAM flag class (loaders folded whole); zero-guard; estimate_cn folded whole for the consumer",
@@ -30,11 +30,11 @@ TECH = {
     "C11": "bounded-exhaustive partial evaluation of the lifted arrangement function and name renderers on every multiset of up to 3 (thorough 5) alleles in every order, checked clause by clause against an independent reading",
     "C12": "whole-function folding of the two file writers on sample solutions (rows/records per copy, identical copies, lost and gained variants, two solutions) and of genotype() for the output dispatch; replicated-mutable-cell rule; REF/ALT derivation per kind branch",
     "C14": "interprocedural mutation-effect / alias analysis over the call graph (who may write catalogue and evidence); late-bound closure capture via symtable; hash-order taint; write-only debug store; multi-gene and call-history independence by whole-function folding of genotype() with module helpers and cache decorators modelled",
-    "C15": "Coverage typestate dataflow (quality filter before every model read); folded quality / threshold predicates; tuple layout agreement",
+    "C15": "Coverage typestate dataflow (quality filter before every model read); quality predicate and `filtered` store folded on grids (incl. reference-only low-quality sites); threshold formula on 1260 grid points; both stage closures captured by folding the stages whole (one and two structures, a handed-over novel variant)",
     "C16": "loader/consumer agreement on indel bookkeeping; Optional-op dominance via reaching definitions and guard facts; folded GT arity guard; _load_vcf folded whole on a variant-file stub (21 record kinds incl. padded, other-shape and insertion records, sample index; thorough: generated records vs an independent reading); constructor route (Sample.__init__ folded whole) and indel-table consumer scenarios; genotype() folded whole for the fixed two-copy structure",
     "C17": "positional agreement of pickled / unpickled tuple by role; codec pairs; completeness of dumped state; purity of what runs between loader and dump writer (folded on sample tables); writer -> reader -> coverage construction folded whole; original run vs replay through genotype() folded whole; archive route end to end on a file-system model (main --debug folded whole on an argparse model, Sample.__init__ folded whole, archive members of three genes read back by the lifted detect_genome and _load_dump)",
     "C18": "the Profile class (constructor, typed update, loader, profile writer) lifted with Python calling convention and folded over all parameters x spellings x routes (API, options section, precedence, write/load round trip, history); genotype() and the command-line driver folded whole for the routes; sibling --param parsers",
-    "C19": "whole-function folding of genotype() over input kind x structure given/estimated x depth x minimum x output style (error before any stage, closed simple-output line); estimate_cn folded whole over depth tables; empty-neutral-region and diploid-depth guards by CFG dominance",
+    "C19": "whole-function folding of genotype() over input kind x structure given/estimated x depth x minimum x output style (error before any stage, closed simple-output line); estimate_cn folded whole over depth tables; empty-neutral-region and diploid-depth guards by CFG dominance and by folding Sample.__init__ whole",
 }
 
 BASE = ("cd /repo && /venv/bin/python -m pytest -ra -q -p no:cacheprovider --timeout=900 "
